@@ -59,6 +59,7 @@ static ABT_barrier BAR;
 static int left_cnt[B_MAXR]; /* hooked: participants that left round k */
 static int go[B_MAXR];       /* hooked: round k may be entered (reinit variant) */
 static int task_calls;       /* hooked */
+static long task_stamp[2];
 
 static void wait_eq(int kind, const int *p, int v)
 {
@@ -112,7 +113,7 @@ static void tasklet_body(void *arg)
     abtmc_check(rc == ABT_ERR_BARRIER, "barrier_tasklet",
                 "ABT_barrier_wait called by a tasklet returned %d (1.x API: "
                 "ABT_ERR_BARRIER)", rc);
-    abtmc_fetch_add(&task_calls, 1);
+    task_stamp[abtmc_fetch_add(&task_calls, 1) & 1] = abtmc_step() + 1;
 }
 
 static void scenario(int cfg)
@@ -171,6 +172,14 @@ static void scenario(int cfg)
     abtmc_check(abtmc_load(&task_calls) == C->ntask, "barrier_tasklet",
                 "%d of %d tasklet calls returned", task_calls, C->ntask);
     b_observe(C->rounds);
+    if (C->ntask) {
+        /* how many rounds participant 0 had left when the tasklets called */
+        int before = 0;
+        for (int t = 0; t < C->ntask; t++)
+            for (int k = 0; k < C->rounds; k++)
+                before += b_leave[0][k] < task_stamp[t];
+        abtmc_observe("tasklet-after=%d", before);
+    }
 
     /* the barrier must be idle: free is only defined without waiters */
     OK(ABT_barrier_free(&BAR));
